@@ -7,29 +7,13 @@ namespace glm
 	template<>
 	GLM_FUNC_QUALIFIER float next_float(float x)
 	{
-#		if GLM_HAS_CXX11_STL
-		return std::nextafter(x, std::numeric_limits<float>::max());
-#		elif((GLM_COMPILER & GLM_COMPILER_VC) || ((GLM_COMPILER & GLM_COMPILER_INTEL) && (GLM_PLATFORM & GLM_PLATFORM_WINDOWS)))
-		return detail::nextafterf(x, FLT_MAX);
-#		elif(GLM_PLATFORM & GLM_PLATFORM_ANDROID)
-		return __builtin_nextafterf(x, FLT_MAX);
-#		else
-		return nextafterf(x, FLT_MAX);
-#		endif
+		return nextFloat(x);
 	}
 
 	template<>
 	GLM_FUNC_QUALIFIER double next_float(double x)
 	{
-#		if GLM_HAS_CXX11_STL
-		return std::nextafter(x, std::numeric_limits<double>::max());
-#		elif((GLM_COMPILER & GLM_COMPILER_VC) || ((GLM_COMPILER & GLM_COMPILER_INTEL) && (GLM_PLATFORM & GLM_PLATFORM_WINDOWS)))
-		return detail::nextafter(x, std::numeric_limits<double>::max());
-#		elif(GLM_PLATFORM & GLM_PLATFORM_ANDROID)
-		return __builtin_nextafter(x, DBL_MAX);
-#		else
-		return nextafter(x, DBL_MAX);
-#		endif
+		return nextFloat(x);
 	}
 
 	template<typename T>
@@ -46,28 +30,12 @@ namespace glm
 
 	GLM_FUNC_QUALIFIER float prev_float(float x)
 	{
-#		if GLM_HAS_CXX11_STL
-		return std::nextafter(x, std::numeric_limits<float>::min());
-#		elif((GLM_COMPILER & GLM_COMPILER_VC) || ((GLM_COMPILER & GLM_COMPILER_INTEL) && (GLM_PLATFORM & GLM_PLATFORM_WINDOWS)))
-		return detail::nextafterf(x, FLT_MIN);
-#		elif(GLM_PLATFORM & GLM_PLATFORM_ANDROID)
-		return __builtin_nextafterf(x, FLT_MIN);
-#		else
-		return nextafterf(x, FLT_MIN);
-#		endif
+		return prevFloat(x);
 	}
 
 	GLM_FUNC_QUALIFIER double prev_float(double x)
 	{
-#		if GLM_HAS_CXX11_STL
-		return std::nextafter(x, std::numeric_limits<double>::min());
-#		elif((GLM_COMPILER & GLM_COMPILER_VC) || ((GLM_COMPILER & GLM_COMPILER_INTEL) && (GLM_PLATFORM & GLM_PLATFORM_WINDOWS)))
-		return _nextafter(x, DBL_MIN);
-#		elif(GLM_PLATFORM & GLM_PLATFORM_ANDROID)
-		return __builtin_nextafter(x, DBL_MIN);
-#		else
-		return nextafter(x, DBL_MIN);
-#		endif
+		return prevFloat(x);
 	}
 
 	template<typename T>
@@ -84,18 +52,12 @@ namespace glm
 
 	GLM_FUNC_QUALIFIER int float_distance(float x, float y)
 	{
-		detail::float_t<float> const a(x);
-		detail::float_t<float> const b(y);
-
-		return abs(a.i - b.i);
+		return floatDistance(x, y);
 	}
 
 	GLM_FUNC_QUALIFIER int64 float_distance(double x, double y)
 	{
-		detail::float_t<double> const a(x);
-		detail::float_t<double> const b(y);
-
-		return abs(a.i - b.i);
+		return floatDistance(x, y);
 	}
 
 	template<length_t L, typename T, qualifier Q>
